@@ -209,6 +209,10 @@ def rule_copy_complete(ctx):
         return out
 
     a_init = assigned(init.node, "self")
+    # cache state created lazily: whatever clear_storage assigns is part of the object's state as soon as the staleness marker
+    # (which copy() carries over) says the caches are initialised
+    clr = base.methods.get("clear_storage")
+    a_lazy = assigned(clr.node, "self") if clr is not None else {}
     newname = None
     for x in ast.walk(cp.node):
         if isinstance(x, ast.Return) and isinstance(x.value, ast.Name):
@@ -218,6 +222,13 @@ def rule_copy_complete(ctx):
     a_copy = assigned(cp.node, newname)
     where = f"{cp.module.relpath}:{cp.lineno}"
     missing = sorted(set(a_init) - set(a_copy))
+    marker_copied = any(k in a_copy for k in a_lazy if k in a_init)
+    lazy_missing = sorted(k for k in a_lazy if k not in a_copy) if marker_copied else []
+    if lazy_missing:
+        r.bad(Finding("circuit-copy-complete", "CircuitBase.copy", f"copies the marker that says the caches are initialised but not {lazy_missing}, which only clear_storage creates: "
+                                                                    "the copy hits an AttributeError (or a stale counter) on its first cache miss", where=where, operand="lazy:" + ",".join(lazy_missing)))
+    elif a_lazy:
+        r.ok("CircuitBase.copy[lazy cache state]", sample={"created by clear_storage": sorted(a_lazy), "copied": True})
     if missing:
         r.bad(Finding("circuit-copy-complete", "CircuitBase.copy", f"does not carry over {missing} which __init__ assigns", where=where, operand=",".join(missing)))
     else:
